@@ -911,7 +911,7 @@ theorem DevFrame.keys {S : Nat → Nat → Prop} {d d' : Dev} (h : DevFrame d d'
 
 theorem failAll_keys (S : Nat → Nat → Prop) (h0 : S 0 0) (rest : List Action) (c : CS) (a : Action) (o : Oracle)
     (out : List Pm.Dev2.Out) (tmo : Option Time) : Keys S (failAll rest c a o out tmo).1.dev.acts := by
-  have hr := reconnectDev_devFrame { c with dev := { c.dev with acts := [] } } tmo
+  have hr := reconnectDev_devFrame { c with dev := { c.dev with acts := [], xmStr := none, xmResult := false, xmUsed := false } } tmo
   unfold failAll
   dsimp only
   split
@@ -1601,20 +1601,20 @@ theorem runPasses_iso (w : W) (ps : List PassIn) (h : Iso w) : Iso (runPasses w 
 /-! ### `dev_initial_connect` (start-up) only adds login actions -/
 
 /-- one step of the loop of `dev_initial_connect` -/
-def icStep (now con soe : Nat) (acc : W × List String × List (Bytes × Dev)) (nd : Bytes × Dev) : W × List String × List (Bytes × Dev) :=
+def icStep (now : Nat) (con soe : List Nat) (acc : W × List String × List (Bytes × Dev)) (nd : Bytes × Dev) : W × List String × List (Bytes × Dev) :=
   let (w, lines, devs) := acc
   let env := mkDevEnv w nd.2 now con soe []
   let c := Pm.Dev2.connectDev { dev := nd.2, env := env, sys := [] }
   ({ w with nsock := w.nsock + countSock c.sys, npair := w.npair + countPair c.sys, nfork := w.nfork + countFork c.sys },
    lines ++ showSys [] c.sys, devs ++ [(nd.1, c.dev)])
 
-theorem initialConnect_eq (w : W) (now con soe : Nat) :
+theorem initialConnect_eq (w : W) (now : Nat) (con soe : List Nat) :
     (initialConnect w now con soe).1 =
       { (w.devs.foldl (icStep now con soe) (w, [], [])).1 with devs := (w.devs.foldl (icStep now con soe) (w, [], [])).2.2 } := by
   unfold initialConnect icStep
   rfl
 
-theorem foldl_icStep (S : Nat → Nat → Prop) (h0 : S 0 0) (now con soe : Nat) (l : List (Bytes × Dev))
+theorem foldl_icStep (S : Nat → Nat → Prop) (h0 : S 0 0) (now : Nat) (con soe : List Nat) (l : List (Bytes × Dev))
     (acc : W × List String × List (Bytes × Dev)) (hl : ∀ nd ∈ l, Keys S nd.2.acts) (ha : ∀ nd ∈ acc.2.2, Keys S nd.2.acts) :
     (l.foldl (icStep now con soe) acc).1.clients = acc.1.clients ∧ (l.foldl (icStep now con soe) acc).1.nextId = acc.1.nextId ∧
     (l.foldl (icStep now con soe) acc).1.alNext = acc.1.alNext ∧ ∀ nd ∈ (l.foldl (icStep now con soe) acc).2.2, Keys S nd.2.acts := by
@@ -1631,7 +1631,7 @@ theorem foldl_icStep (S : Nat → Nat → Prop) (h0 : S 0 0) (now con soe : Nat)
       · exact DevFrame.keys (Pm.Dev2.connectDev_devFrame { dev := nd.2, env := mkDevEnv w nd.2 now con soe [], sys := [] }) h0 (hl nd (by simp)))
     exact this
 
-theorem initialConnect_iso (w : W) (now con soe : Nat) (h : Iso w) : Iso (initialConnect w now con soe).1 := by
+theorem initialConnect_iso (w : W) (now : Nat) (con soe : List Nat) (h : Iso w) : Iso (initialConnect w now con soe).1 := by
   rw [initialConnect_eq]
   constructor
   · obtain ⟨h1, h2, _, h4⟩ := foldl_icStep (fun cid _ => cid < w.nextId) h.1.one now con soe w.devs (w, [], [])
@@ -1828,12 +1828,12 @@ def w0 : W :=
     devs := [([65], devA)], nsock := 1 }
 def line : Bytes := bstr "status a1\n"
 /-- pass 1: a connection is accepted (client 1, descriptor 1000) -/
-def p1 : PassIn := { now := 1000, acc := 1, con := 0, soe := 0, envs := [] }
+def p1 : PassIn := { now := 1000, acc := 1, con := [0], soe := [0], envs := [] }
 /-- pass 2: a second connection is accepted (client 2, descriptor 1001); client 1 sends `status a1` -/
-def p2 : PassIn := { now := 2000, acc := 1, con := 0, soe := 0, envs := [{ fd := 1000, rev := 1, rk := 0, data := line, cap := 100 }] }
+def p2 : PassIn := { now := 2000, acc := 1, con := [0], soe := [0], envs := [{ fd := 1000, rev := 1, rk := 0, data := line, cap := 100 }] }
 /-- pass 3: client 2 sends `status a1` too; the device takes the bytes of client 1's action -/
 def p3 : PassIn :=
-  { now := 3000, acc := 0, con := 0, soe := 0,
+  { now := 3000, acc := 0, con := [0], soe := [0],
     envs := [{ fd := 1001, rev := 1, rk := 0, data := line, cap := 100 }, { fd := 2000, rev := 2, rk := 0, data := [], cap := 100 }] }
 /-- both requests in flight: the queue of `A` holds client 1's action (arglist 0) and client 2's (arglist 1) -/
 def w3 : W := runPasses w0 [p1, p2, p3]
@@ -1841,11 +1841,11 @@ def w3 : W := runPasses w0 [p1, p2, p3]
 def xs4 : List RxCall :=
   [{ pat := 1, subject := bstr "1 on\n", answer := some [(0, 5), (0, 1), (2, 4)] }, { pat := 2, subject := bstr "on", answer := some [(0, 2)] }]
 /-- pass 4: the device answers client 1's action -/
-def p4 : PassIn := { now := 4000, acc := 0, con := 0, soe := 0, envs := [{ fd := 2000, rev := 1, rk := 0, data := bstr "1 on\n", cap := 100 }] }
+def p4 : PassIn := { now := 4000, acc := 0, con := [0], soe := [0], envs := [{ fd := 2000, rev := 1, rk := 0, data := bstr "1 on\n", cap := 100 }] }
 def w3x : W := { w3 with pendingX := xs4 }
 def w4 : W := (daemonPass w3x p4).1
 /-- instead of pass 4: client 1's descriptor reports an error -/
-def pErr : PassIn := { now := 3500, acc := 0, con := 0, soe := 0, envs := [{ fd := 1000, rev := 8, rk := 0, data := [], cap := 0 }] }
+def pErr : PassIn := { now := 3500, acc := 0, con := [0], soe := [0], envs := [{ fd := 1000, rev := 8, rk := 0, data := [], cap := 0 }] }
 def w3d : W := (daemonPass w3 pErr).1
 def w4d : W := (daemonPass { w3d with pendingX := xs4 } p4).1
 
